@@ -52,6 +52,31 @@ static ld kappa(const Fam& F, ld a, ld b)
 	return std::max((ld)1, fabsl(s) / fabsl(F.exact(a, b)));
 }
 
+// wider intervals for the methods that adapt to a tolerance (a fixed 30-point rule has an a-priori error bound that excludes them)
+static void adaptive_methods_wide(unsigned long long& unit)
+{
+	auto F = families();
+	std::vector<std::pair<double, double>> ivs = {{-3, 3}, {-4, 6}, {-6, 10}, {0, 25}};
+	for(auto& fam : F)
+	{
+		if(fam.name.rfind("damped", 0) == 0 || fam.name.rfind("inverse", 0) == 0) continue;
+		for(auto& iv : ivs)
+			for(std::string m : {"Gauss-Kronrod", "Tanh-Sinh", "Adaptive-Simpson"})
+				for(int mp : {0, 15})
+				{
+					if(!mc::mine(unit++)) continue;
+					ld ex = fam.exact(iv.first, iv.second);
+					std::string key = fam.name + ",a=" + mc::dec(iv.first) + ",b=" + mc::dec(iv.second) + ",method=" + m + ",param=" + std::to_string(mp) + ",wide";
+					auto f = [&](double x) { return (double)fam.f(x); };
+					double v = 0;
+					if(mc::library_exits([&]() { v = Integrate(f, iv.first, iv.second, m, mp); })) { fail("methods1d", key, "terminated_process", "valid request ended the process"); continue; }
+					g_cases++;
+					if(!(fabsl(v - ex) <= 1e-9L * fabsl(ex))) fail("methods1d", key, "inaccurate", "Integrate = " + mc::dec(v) + " exact " + mc::dec((double)ex) + " relative error " + mc::dec((double)(fabsl(v - ex) / fabsl(ex))));
+					else mc::maxi("rel_err_over_allowed_wide_" + m, (double)(fabsl(v - ex) / (1e-9L * fabsl(ex))), key);
+				}
+	}
+}
+
 static void one_dimensional(unsigned long long& unit)
 {
 	auto F = families();
@@ -156,6 +181,22 @@ static void nested(unsigned long long& unit)
 			if(!(fabsl(v - ex) <= 3 * method_acc(m) * fabsl(ex))) fail("nested", key, "not_product_of_1d_integrals", "Integrate_3D = " + mc::dec(v) + " product " + mc::dec((double)ex));
 			else mc::maxi("nested3d_err_over_allowed", (double)(fabsl(v - ex) / (3 * method_acc(m) * fabsl(ex))), key);
 		}
+	// method_parameter must reach every nesting level: with an explicit (coarse) Gauss-Legendre_2 node count the nested rule is the
+	// tensor product of the 1D rules, so the 2D/3D result equals the product of the library's own 1D results for the same count
+	for(int np : {2, 3, 6, 9})
+	{
+		if(!mc::mine(unit++)) continue;
+		std::string key = "tensor,Gauss-Legendre_2,points=" + std::to_string(np);
+		auto fx = [&](double x) { return (double)gx(x); };
+		auto fy = [&](double y) { return (double)gy(y); };
+		auto fz = [&](double z) { return (double)gz(z); };
+		double ix = Integrate(fx, X1, X2, "Gauss-Legendre_2", np), iy = Integrate(fy, Y1, Y2, "Gauss-Legendre_2", np), iz = Integrate(fz, Z1, Z2, "Gauss-Legendre_2", np);
+		double v2 = Integrate_2D([&](double x, double y) { return fx(x) * fy(y); }, X1, X2, Y1, Y2, "Gauss-Legendre_2", np);
+		double v3 = Integrate_3D([&](double x, double y, double z) { return fx(x) * fy(y) * fz(z); }, X1, X2, Y1, Y2, Z1, Z2, "Gauss-Legendre_2", np);
+		g_cases += 2;
+		if(!(std::fabs(v2 - ix * iy) <= 64 * np * 1.2e-16 * std::fabs(ix * iy))) fail("nested", key, "method_parameter_not_used_at_every_level_2D", "Integrate_2D = " + mc::dec(v2) + " product of the 1D results with the same node count " + mc::dec(ix * iy));
+		if(!(std::fabs(v3 - ix * iy * iz) <= 64 * np * 1.2e-16 * std::fabs(ix * iy * iz))) fail("nested", key, "method_parameter_not_used_at_every_level_3D", "Integrate_3D = " + mc::dec(v3) + " product of the 1D results with the same node count " + mc::dec(ix * iy * iz));
+	}
 	// spherical overload
 	struct Sub { double c1, c2, p1, p2; };
 	std::vector<Sub> subs = {{-1, 1, 0, 2 * M_PI}, {-1, 0, 0, M_PI}, {0.2, 0.9, 1.0, 2.5}, {-0.7, -0.1, 4.0, 6.0}, {0.5, -0.5, 3.0, 0.5}};
@@ -202,6 +243,7 @@ int main(int argc, char** argv)
 	mc::bound("rule", "complete product of 6 method names x 19 integrands (damped cosines up to two periods, Lorentzian, 1/(x+s), Gaussians) x 4 intervals x {default, explicit} method_parameter, each in both orientations and with equal limits; Integrate_2D/3D for every method x every orientation of every axis with different factors and disjoint ranges per axis; spherical overload on 5 angular sub-ranges x 2 shells x 4 methods; accuracy relative to kappa = int|f| / |int f|");
 	unsigned long long unit = 0;
 	one_dimensional(unit);
+	adaptive_methods_wide(unit);
 	nested(unit);
 	mc::count("evaluations", g_cases);
 	mc::count("distinct_nontrivial", g_cases);
